@@ -44,14 +44,14 @@ func (c *Ctx) execCall(fr *Frame, st *State, x *ssa.Call) (*Val, []*exitInfo) {
 }
 
 func (c *Ctx) staticCall(fr *Frame, st *State, site ssa.Instruction, fn *ssa.Function, args []*Val, rt types.Type) (*Val, []*exitInfo) {
+	if con := c.prog.ContractOf(fn); con != nil && !con.Inline {
+		return c.contractCall(fr, st, site, fn, con, args, rt)
+	}
 	// compiler generated wrappers are transparent
 	if fn.Synthetic != "" && len(fn.Blocks) > 0 && !strings.HasPrefix(fn.Synthetic, "instance of") && !strings.HasPrefix(fn.Synthetic, "package initializer") {
 		if fr.depth < maxInlineDepth+2 {
 			return c.inlineCall(fr, st, site, fn, args, nil, rt)
 		}
-	}
-	if con := c.prog.ContractOf(fn); con != nil && !con.Inline {
-		return c.contractCall(fr, st, site, fn, con, args, rt)
 	}
 	if h, ok := externalModels[fn.String()]; ok {
 		return h(c, fr, st, site, args, rt), nil
@@ -265,7 +265,7 @@ func (c *Ctx) contractCall(fr *Frame, st *State, site ssa.Instruction, fn *ssa.F
 		}
 	}
 	if con.NoReturn {
-		exits = append(exits, &exitInfo{kind: "exit", st: st.clone(), reach: c.curReach, site: site, fr: fr, val: firstArg(args)})
+		exits = append(exits, &exitInfo{kind: "exit", st: st.clone(), reach: c.curReach, site: site, fr: fr, val: firstArg(args), topBlock: c.curTopBlock, edgeFrom: c.curEdgeFrom})
 		c.curReach = "false"
 		return c.zeroOrFresh(rt), exits
 	}
@@ -298,6 +298,7 @@ func (c *Ctx) contractCall(fr *Frame, st *State, site ssa.Instruction, fn *ssa.F
 			c.assumeAlways(fmt.Sprintf("(forall ((r Int)) (! (=> (< r %s) (= (select %s r) (select %s r))) :pattern ((select %s r))))", nextPre, name, keepTerms[i], name))
 			st.heap[k[0]] = name
 		}
+		c.restoreCaptured(st, pre)
 	} else {
 		locs := c.assignLocs(env, con)
 		c.havocLocs(st, pre, locs, "call")
@@ -611,6 +612,10 @@ func (c *Ctx) invoke(fr *Frame, st *State, site ssa.Instruction, recv *Val, m *t
 	// that contract; every other dynamic type goes through the interface-method contract (or the default)
 	cands := c.prog.implementers(it, m.Name())
 	if top := c.topFrame; top == nil || top.con == nil || !(top.con.Dispatch || top.con.Auto) {
+		cands = nil
+	}
+	// only logg's own interfaces and io.Writer are dispatched; fmt.Stringer, error, ... carry user values
+	if tn := typeName(it); !(tn == rootPkg+".LogWriter" || tn == rootPkg+".LevelSettable" || tn == "io.Writer") {
 		cands = nil
 	}
 	if len(cands) == 0 || c.dry > 0 {
@@ -1271,3 +1276,20 @@ func (c *Ctx) keptLeaves(con *Contract) [][2]string {
 	}
 	return out
 }
+
+// restoreCaptured: local variables of the functions being executed that escape only into closures
+// (captured variables) are not written by callees: closures that assign to a captured variable are
+// rejected when they are created (see closureBindings).
+func (c *Ctx) restoreCaptured(st, pre *State) {
+	for _, cc := range c.captured {
+		h := c.H(st, cc.leaf, cc.sort)
+		old := c.H(pre, cc.leaf, cc.sort)
+		c.nsym++
+		name := sym(fmt.Sprintf("%s@%d_cap", cc.leaf, c.nsym))
+		c.declare(name, cc.sort)
+		c.assumeAlways(eq(name, app("store", h, cc.ref, app("select", old, cc.ref))))
+		st.heap[cc.leaf] = name
+	}
+}
+
+type capturedCell struct{ leaf, sort, ref string }
